@@ -764,6 +764,17 @@ func (self PathNode) marshal(p *thrift.BinaryProtocol, opts *Options) error {
 	return err
 }
 
+// resetPathNodeSlots clears the path and node of every slot within the capacity of con,
+// since they may keep the values of a previous Load(). The Next buffers are kept for reuse.
+func resetPathNodeSlots(con []PathNode) {
+	con = con[:cap(con)]
+	for i := range con {
+		con[i].Path = Path{}
+		con[i].Node = Node{}
+		con[i].Next = con[i].Next[:0]
+	}
+}
+
 func guardPathNodeSlice(con *[]PathNode, l int) {
 	c := cap(*con)
 	if l >= c {
@@ -809,6 +820,8 @@ func (self *PathNode) handleChild(in *[]PathNode, lp *int, cp *int, p *thrift.Bi
 	}
 	v := &con[l]
 	l += 1
+	// NOTICE: the slot may keep the children of a previous Load()
+	v.Next = v.Next[:0]
 
 	ss := p.Read
 	buf := p.Buf
@@ -1136,6 +1149,10 @@ func (self *PathNode) scanChildren(p *thrift.BinaryProtocol, recurse bool, opts 
 	switch self.Node.t {
 	case thrift.STRUCT:
 		// name, err := p.ReadStructBegin()
+		if opts.StoreChildrenById {
+			// NOTICE: children are stored sparsely, slots used by a previous Load() must not be seen as children
+			resetPathNodeSlots(con)
+		}
 		for {
 			_, et, id, e := p.ReadFieldBegin()
 			if e != nil {
@@ -1190,6 +1207,8 @@ func (self *PathNode) scanChildren(p *thrift.BinaryProtocol, recurse bool, opts 
 				// NOTE: we use original count*2 as the capacity of the hash table.
 				N = size * 2
 				guardPathNodeSlice(&con, N-1)
+				// NOTICE: a used slot of a previous Load() would be taken as occupied
+				resetPathNodeSlots(con)
 				conAddr = *(*unsafe.Pointer)(unsafe.Pointer(&con))
 				c = N
 			}
@@ -1214,6 +1233,8 @@ func (self *PathNode) scanChildren(p *thrift.BinaryProtocol, recurse bool, opts 
 				// NOTE: we use original count*2 as the capacity of the hash table.
 				N = size * 2
 				guardPathNodeSlice(&con, N-1)
+				// NOTICE: a used slot of a previous Load() would be taken as occupied
+				resetPathNodeSlots(con)
 				conAddr = *(*unsafe.Pointer)(unsafe.Pointer(&con))
 				c = N
 			}
